@@ -20,6 +20,14 @@ if [ "$REPO" != "/repo" ]; then
   MODFLAGS=(-modfile="$ROOT/work/go.alt.mod")
 fi
 
+nocgo() {
+  # with cgo linked in (package net pulls it in) the Go runtime no longer reports "all goroutines are asleep -
+  # deadlock!", which is how a lock the library leaves locked shows up in a worker: keep it out of the harness
+  if ( cd "$ROOT/harness" && go list "${MODFLAGS[@]}" -deps -tags verif ./cmd/verifrun 2>/dev/null | grep -qx 'runtime/cgo' ); then
+    echo "BUILD FAILED: the harness links runtime/cgo (deadlock detection of the Go runtime would be off)" >&2; exit 2
+  fi
+}
+
 build() { # $1 = output name, rest = extra flags
   local out="$1"; shift
   ( cd "$ROOT/harness" && go build "${MODFLAGS[@]}" -tags verif "$@" -gcflags="$PLUSHPKGS=-d=checkptr" -o "$ROOT/bin/$out" ./cmd/verifrun ) || { echo "BUILD FAILED" >&2; exit 2; }
@@ -45,7 +53,7 @@ selftest() {
 
 case "${1:-}" in
   --build)
-    build verifrun; build verifrun-race -race
+    nocgo; build verifrun; build verifrun-race -race
     ( cd "$ROOT/harness" && go test "${MODFLAGS[@]}" -tags verif -count=1 ./internal/... ) || { echo "REFERENCE MODEL TESTS FAILED" >&2; exit 2; }
     selftest || exit 2
     exit 0;;
